@@ -43,7 +43,7 @@ PLAIN_TEXTS = ['x', 'key=value', 'a b c', ' leading', 'trailing ', '', 'k=', '=v
 
 class Cmd(object):
     __slots__ = ('idx', 'kind', 'text', 'wire', 'reply', 'expected', 'done', 'outcome', 'lines', 'follow',
-                 'observed', 'fired', 'exp_lines', 'post_loss')
+                 'observed', 'fired', 'exp_lines', 'post_loss', 'deferred', 'cancelled')
 
     def __init__(self, idx, kind, text, wire=None, observed=True):
         self.idx = idx
@@ -53,6 +53,8 @@ class Cmd(object):
         self.reply = None
         self.expected = None        # ('ok', set-of-acceptable-texts) | ('err', code, text|None)
         self.done = False
+        self.deferred = None
+        self.cancelled = False
         self.outcome = None
         self.lines = []             # what the per-line callback received
         self.exp_lines = None
@@ -70,7 +72,19 @@ class Listener(object):
         self.target = target
         self.calls = []             # (eid, payload)
         self.registered = False
-        self.fn = None
+        self.run = None
+        self.bound = False
+
+    def deliver(self, payload):
+        self.run.on_event(self, payload)
+
+    @property
+    def fn(self):
+        # half of the listeners are bound methods: every access creates a new, equal, method object, so the
+        # callable handed to remove_event_listener is not the *same* object that was registered
+        if self.bound:
+            return self.deliver
+        return self._plain
 
 
 class CtlRun(object):
@@ -107,6 +121,9 @@ class CtlRun(object):
         self.allow_long = ch.chance(1, 40, 'long') and self.prop != 'C03'
         self.n_events = 0
         self.n_listener_ops = 0
+        self.cancels_left = 0
+        if self.prop in ('C01', 'C02') and ch.chance(1, 4, 'cancels'):
+            self.cancels_left = 1 + ch.draw(2, 'ncancel')
         if self.prop == 'C02':
             self.n_events = 1 + ch.draw(P.get('max_events', 20), 'nev')
             self.n_listener_ops = ch.draw(P.get('max_listener_ops', 12) + 1, 'nlops')
@@ -270,6 +287,8 @@ class CtlRun(object):
         outstanding = sum(1 for c in self.cmds if c.observed and not c.done)
         if self.submitted < self.n_cmds and outstanding < self.max_queue:
             acts.append((5, 'submit', self.op_submit))
+        if self.cancels_left > 0 and outstanding:
+            acts.append((1, 'cancel', self.op_cancel))
         if self.prop == 'C02':
             if self.n_listener_ops > 0:
                 acts.append((3, 'listener-op', self.op_listener))
@@ -320,11 +339,29 @@ class CtlRun(object):
             d = self.proto.get_info_incremental('x/%d' % idx, lambda line, c=c: self.on_line(c, line))
         if not isinstance(d, defer.Deferred):
             sim.fail(self.prop + '.no-deferred', 'submission returned %r' % (d,))
+        c.deferred = d
         d.addCallbacks(lambda res, c=c: self.on_result(c, True, res), lambda f, c=c: self.on_result(c, False, f))
         return c
 
+    def op_cancel(self):
+        """the caller gives up on a command (Deferred.cancel(), what addTimeout() does): the command keeps its place
+        in the FIFO - it is still written, its reply is still consumed - and nobody else is affected"""
+        ch, sim = self.ch, self.sim
+        self.cancels_left -= 1
+        pool = [c for c in self.cmds if c.observed and not c.done and c.kind in ('plain', 'rawcb', 'incr') and c.deferred is not None]
+        if not pool:
+            return
+        c = ch.pick(pool, 'cancelwhich')
+        inflight = [x for x in self.cmds if x.observed and not x.done][:1] == [c]
+        sim.probe('cancel-in-flight-command' if inflight else 'cancel-queued-command')
+        sim.log('cancel', c.idx, 'in-flight' if inflight else 'queued')
+        c.cancelled = True
+        c.deferred.cancel()
+        if not c.done or c.outcome[:2] != ('err', 'CancelledError'):
+            sim.fail(self.prop + '.cancel-not-delivered', 'cancel() of command %d left it %r' % (c.idx, c.outcome))
+
     def on_line(self, c, line):
-        if c.done:
+        if c.done and not c.cancelled:
             self.sim.fail(self.prop + '.line-callback-after-completion',
                           'per-line callback of command %d got %r after the command completed' % (c.idx, line[:80]))
         c.lines.append(line)
@@ -415,7 +452,7 @@ class CtlRun(object):
                     sim.fail(prop + '.reply-complete-but-unresolved',
                              'reply %d %r fully delivered but command %d (%s) is unresolved' % (
                                  i, c.reply.describe() if c.reply else None, c.idx, c.kind))
-            elif c.done and not self.cut_done:
+            elif c.done and not self.cut_done and not c.cancelled:
                 sim.fail(prop + '.resolved-before-its-reply',
                          'command %d resolved (%r) but only %d replies are complete' % (c.idx, c.outcome, d))
         # outcome content: check each command once, when it resolves
@@ -424,7 +461,8 @@ class CtlRun(object):
                 break
             if c.observed and c.done and c.expected is not None and c.idx not in self._checked:
                 self._checked.add(c.idx)
-                self.check_outcome(c)
+                if not c.cancelled:
+                    self.check_outcome(c)
         if self.prop == 'C02':
             self.check_events_step()
         self.S0 = dict((k, list(v)) for k, v in self.live.items())
@@ -452,7 +490,11 @@ class CtlRun(object):
         if beh == 'remove-other':
             l.target = ch.draw(len(self.listeners) + 1, 'target')
         self.listeners.append(l)
-        l.fn = lambda payload, l=l: self.on_event(l, payload)
+        l.run = self
+        l._plain = lambda payload, l=l: self.on_event(l, payload)
+        l.bound = ch.chance(1, 2, 'boundmethod')
+        if l.bound:
+            sim.probe('listener-is-bound-method')
         first = not self.live.get(name)
         self.live.setdefault(name, []).append(l.lid)
         l.registered = True
@@ -741,8 +783,10 @@ class CtlRun(object):
                 len(self.peer.received), len(self.cmds)))
         # per-line callbacks must not have changed after completion
         for c in self.cmds:
-            if c.exp_lines is not None and c.done and c.outcome[0] == 'ok':
+            if c.exp_lines is not None and c.done and c.outcome[0] == 'ok' and not c.cancelled:
                 self.check_lines(c)
+            if c.fired > 1:
+                sim.fail(prop + '.resolved-twice', 'command %d resolved %d times' % (c.idx, c.fired))
         if prop == 'C02':
             for l in self.listeners:
                 eids = [e for e, p in l.calls if e is not None]
